@@ -6,11 +6,12 @@ import (
 	"bytes"
 	"encoding/binary"
 	"encoding/hex"
-	"strings"
 	"fmt"
 	"math/big"
 	"math/rand"
+	"os"
 	"sort"
+	"strings"
 
 	"github.com/dominant-strategies/go-quai/common"
 	"github.com/dominant-strategies/go-quai/consensus/misc"
@@ -95,14 +96,14 @@ type run struct {
 	w    *hnet.Wallet
 	r    *rand.Rand
 
-	idx       map[common.Hash]*blk
-	book      map[common.Hash]*reward
-	uncleIn   map[common.Hash][]*blk
-	shareRew  map[common.Hash][]*blk
-	watch     map[common.InternalAddress]string // Quai accounts whose every credit source is known
-	contracts map[[20]byte]*ownerContract       // deployed (or to be deployed) forwarding contracts
-	spentIn   map[string][]*blk                 // outpoint -> blocks whose Qi tx spends it
-	utxoLock  map[string]uint64                 // outpoint of a locked reward/conversion output -> lock height
+	idx        map[common.Hash]*blk
+	book       map[common.Hash]*reward
+	uncleIn    map[common.Hash][]*blk
+	shareRew   map[common.Hash][]*blk
+	watch      map[common.InternalAddress]string // Quai accounts whose every credit source is known
+	contracts  map[[20]byte]*ownerContract       // deployed (or to be deployed) forwarding contracts
+	spentIn    map[string][]*blk                 // outpoint -> blocks whose Qi tx spends it
+	utxoLock   map[string]uint64                 // outpoint of a locked reward/conversion output -> lock height
 	claimsSeen map[common.Hash]bool
 
 	linear bool // no fork was built on this net so far (database scans describe the only chain)
@@ -205,6 +206,9 @@ func (x *run) observe(mined *hnet.Mined) bool {
 			x.m.Violation("state-not-openable", "parent: "+err.Error(), x.wit(b, nil))
 			return false
 		}
+	}
+	if os.Getenv("C13_DEBUG") != "" && strings.Contains(x.name, os.Getenv("C13_DEBUG")) {
+		x.debugBlock(b, receipts)
 	}
 	x.checkEmission(b)
 	x.checkUncles(b)
@@ -1100,3 +1104,33 @@ func (x *run) checkLockups(b, parent *blk, pst *state.StateDB, receipts types.Re
 }
 
 var _ = rand.Int
+
+func (x *run) debugBlock(b *blk, receipts types.Receipts) {
+	line := fmt.Sprintf("DBG %s blk %d %x parent %x ord %d cb=%x data=%x uncles=%d |", x.name, b.num, b.hash[:4], b.parent[:4], b.order, b.wo.PrimaryCoinbase().Bytes()[:3], b.wo.Data(), len(b.wo.Uncles()))
+	for _, e := range b.wo.OutboundEtxs() {
+		line += fmt.Sprintf(" OUT[t%d to=%x v=%v dl=%d h=%x]", e.EtxType(), e.To().Bytes()[:3], e.Value(), len(e.Data()), e.Hash().Bytes()[:4])
+	}
+	for i, tx := range b.wo.Transactions() {
+		st := uint64(9)
+		if receipts != nil {
+			st = receipts[i].Status
+		}
+		switch tx.Type() {
+		case types.ExternalTxType:
+			line += fmt.Sprintf(" IN[t%d to=%x v=%v dl=%d h=%x st=%d]", tx.EtxType(), tx.To().Bytes()[:3], tx.Value(), len(tx.Data()), tx.Hash().Bytes()[:4], st)
+		case types.QuaiTxType:
+			to := "create"
+			if tx.To() != nil {
+				to = fmt.Sprintf("%x", tx.To().Bytes()[:3])
+			}
+			line += fmt.Sprintf(" QUAI[to=%s dl=%d h=%x st=%d]", to, len(tx.Data()), tx.Hash().Bytes()[:4], st)
+		case types.QiTxType:
+			line += fmt.Sprintf(" QI[h=%x st=%d]", tx.Hash().Bytes()[:4], st)
+		}
+	}
+	db, _ := scanLocks(x)
+	for k, v := range db {
+		line += fmt.Sprintf(" DBLOCK[%s..%s bal=%v el=%d tr=%d]", k[:6], k[41:], v.Balance, v.Elements, v.Tranche)
+	}
+	fmt.Println(line)
+}
